@@ -9,7 +9,7 @@ from vf.gen_args import typed_equal
 LEVEL = "exploration"
 RULE = (
     "soup: every token sequence up to length 3 (quick) / 4 (thorough; length 5-6 sampled by Hypothesis) over the "
-    "24-token adversarial alphabet ('', -, --, ---, --=, -=, known/unknown long and short options with and "
+    "26-token adversarial alphabet ('', -, --, ---, --=, -=, known/unknown long and short options with and "
     "without =value, grouped shorts, negative numbers, null, words) instantiated against each of the 60 small "
     "formats (argument shapes x option shapes incl. no arguments at all, typed optional-value options, command "
     "names), strict and lenient; faults: Hypothesis C01 lines with exactly one fault (drop required positional, "
@@ -23,7 +23,7 @@ ASSUMPTIONS = [
 ]
 
 ALPHABET = ["", "-", "--", "---", "--=", "-=", "-x", "--known", "--known=v", "--known=", "-k", "-kv", "-kk", "-ku",
-            "-jk", "--unknown", "--unknown=1", "-u", "-5", "-1.5", "null", "word", "7", "true"]
+            "-jk", "--unknown", "--unknown=1", "-u", "-5", "-1.5", "null", "word", "7", "true", "--known=a\nb", "-k\n"]
 
 
 def soup_formats():
@@ -279,4 +279,6 @@ def run(ctx):
         "tokens": st.lists(st.sampled_from(ALPHABET), min_size=maxlen + 1, max_size=6),
     })
     ctx.hyp(long_soup, lambda c: check_soup_random(ctx, c), 1500 if quick else 60000, salt=1)
+    if not quick:
+        ctx.fuzz("c02", 300000)
     ctx.hyp_sharded("fault", 6000 if quick else 80000, salt=2)
